@@ -6,6 +6,7 @@
 import Rl2tp.Driver.Text
 import Rl2tp.Model.Bitmask
 import Rl2tp.Model.Cursor
+import Rl2tp.Model.WriterLog
 import Rl2tp.Spec.Md5
 namespace Rl2tp.Driver
 open Rl2tp.Text
@@ -31,27 +32,15 @@ def avps (b : Bytes) : Out Bytes DErr (List Res) := greedy b
 def owText (l : List (Nat × Nat)) : String :=
   "[" ++ ";".intercalate (l.map fun (o, n) => toString o ++ "+" ++ toString n) ++ "]"
 
-/-- positional overwrites `ControlMessage::write` issues into a writer holding `w`: one per AVP at its
-    first octet, then the Length field -/
-def controlOverwrites (w : Bytes) (c : Control) : List (Nat × Nat) :=
-  let rec go (pos : Nat) : List AVP → List (Nat × Nat)
-    | [] => []
-    | a :: as => (pos, 2) :: go (pos + 6 + a.value.length) as
-  go (w.length + 12) c.avps ++ [(w.length + 2, 2)]
-
 def encMsgText (p : Bytes) (m : Msg) : String :=
-  match writeMsg p m with
+  match writeMsgL p m with
   | .error _ => "panic"
-  | .ok w =>
-    let ow := match m with
-      | .control c => controlOverwrites p c
-      | .data _ => []
-    "ok " ++ hex w ++ " ow=" ++ owText ow
+  | .ok (w, ow) => "ok " ++ hex w ++ " ow=" ++ owText ow
 
 def encAvpText (p : Bytes) (a : AVP) : String :=
-  (match writeAvp p a with
+  (match writeAvpL p a with
     | .error _ => "panic"
-    | .ok w => "ok " ++ hex w ++ " ow=" ++ owText [(p.length, 2)]) ++ " len=" ++ toString a.getLength
+    | .ok (w, ow) => "ok " ++ hex w ++ " ow=" ++ owText ow) ++ " len=" ++ toString a.getLength
 
 def strictDec (b : Bytes) := dec Opts.strict b
 
